@@ -12,7 +12,8 @@ from . import tlagen, tlaval, core, explore
 from .tlagen import Rec
 from .envfull_check import full_model, bars, DAY, CONTRACTS
 
-CLAUSE_PROPS = {"isolation": ["C10"], "reproducible": ["C10"], "reset_residual": ["C10"], "spec": []}
+CLAUSE_PROPS = {"isolation": ["C10"], "reproducible": ["C10"], "reset_residual": ["C10"], "spec": [],
+                "pair_roll": ["C11"]}   # in the interleaved run, an environment holds another chain contract than its own lead
 H = F(1, 2)
 
 
@@ -99,7 +100,17 @@ def replay_chunk(ctx, texts):
                 o, v = _call(ws[who], rec)
                 got[who].append(_outputs(ws[who], rec["call"], o, v))
                 out["ops"] += 1
+                if bad is None and o == "ok" and rec["call"] == "step" and rec["out"] == "ok" and isinstance(rec.get("pos"), dict):
+                    from .impl import frac, close
+                    p_now = ws[who].pos()
+                    wrong = [n for n in p_now if not close(p_now[n], frac(rec["pos"][n]))]
+                    if wrong:
+                        bad = ("pair_roll", "environment %s (schedule %s, its own clock at %s): positions %s, by its own clock the "
+                               "specification gives %s" % (who, "".join(sched), ws[who].env.now(), p_now,
+                                                           {n: str(frac(v)) for n, v in rec["pos"].items()}))
             for who in "AB":
+                if bad:
+                    break
                 if not hists[who]:
                     continue
                 # (1) the same calls on a fresh environment run alone
